@@ -135,10 +135,11 @@ def damages_for(spec: Spec, head: bytes, body: bytes, enc: bytes, rng: typing.An
             if li % 2 == 0:
                 out.append((Damage("chunksize", a, MUST, False, "empty-line"), head + data[:a] + data[digits_end:]))
     # --- content stream damage inside complete framing (server keeps the connection open) ---
-    if spec.coding in ("gzip", "x-gzip", "deflate", "rawdeflate", "zstd", "zstdmb") and len(enc) > 2 and spec.decode:
+    stacked_zstd_outer = "+" in spec.coding and spec.coding.split("+")[-1] in ("zstd", "zstdmb")
+    if (spec.coding in ("gzip", "x-gzip", "deflate", "rawdeflate", "zstd", "zstdmb") or stacked_zstd_outer) and len(enc) > 2 and spec.decode:
         n = len(enc)
         pts = sorted(set([0, 1, n // 2, n - 1] + [rng.randrange(n) for _ in range(8 if dense else 3)]))
-        for p in pts:
+        for p in pts if not stacked_zstd_outer else []:  # (corruption of stacks: no single-coding reference decoder; only cuts)
             bad = enc[:p] + bytes([enc[p] ^ 0x5A]) + enc[p + 1 :]
             ref = reference_decodes(spec.coding, bad)
             # undecodable = the reference decoder raises; a stream that merely stops short is "incomplete", which
@@ -146,10 +147,11 @@ def damages_for(spec: Spec, head: bytes, body: bytes, enc: bytes, rng: typing.An
             verdict = MUST if ref == "error" or (ref == "incomplete" and spec.coding in ("zstd", "zstdmb")) else EITHER
             out.append((Damage("content-corrupt", p, verdict, False), rewrap(spec, bad)))
         cuts = sorted(set([1, n // 2, n - 1] + [rng.randrange(1, n) for _ in range(6 if dense else 2)]))
-        if dense and spec.coding in ("zstd", "zstdmb") and n <= 160:
+        outer = spec.coding.split("+")[-1]  # the coding applied last is the one the wire bytes are a stream of
+        if dense and outer in ("zstd", "zstdmb") and n <= 160:
             cuts = list(range(1, n))  # every cut-off point, including inner block boundaries and the checksum
         for k in cuts:
-            verdict = MUST if spec.coding in ("zstd", "zstdmb") else EITHER  # the statement restricts incompleteness to zstd
+            verdict = MUST if outer in ("zstd", "zstdmb") else EITHER  # the statement restricts incompleteness to zstd
             out.append((Damage("content-incomplete", k, verdict, False), rewrap(spec, enc[:k])))
     return out
 
@@ -239,7 +241,7 @@ def run_case(rec: Recorder, spec: Spec, dmg: Damage, wire_bytes: bytes, pname: s
 def small_specs() -> list[Spec]:
     out = []
     for size in (5, 100):
-        for coding in ("identity", "gzip", "gzip2", "deflate", "rawdeflate", "zstd", "zstdmb", "zstd2", "gzip+deflate"):
+        for coding in ("identity", "gzip", "gzip2", "deflate", "rawdeflate", "zstd", "zstdmb", "zstd2", "gzip+deflate", "gzip+zstd", "deflate+zstdmb"):
             for framing, sizes in (("cl", []), ("chunked", [3, 1, 7]), ("chunked", [])):
                 for decode in (True, False):
                     if not decode and coding not in ("identity", "gzip"):
@@ -283,11 +285,50 @@ def run_huge_announced(ctx: Ctx, rec: Recorder) -> None:
                 pyo.extract_from_urllib3()
 
 
+def run_cl_list(ctx: Ctx, rec: Recorder) -> None:
+    """Content-Length in list form ('5, 5': duplicate header lines folded by an intermediary), which urllib3 accepts as a
+    length: a body that ends short of it must be reported by every read pattern like any other short body."""
+    rng = ctx.rng
+    for K in (5, 100):
+        for form in ("%d, %d", "%d,%d", "%d, %d, %d"):
+            cl = form % ((K,) * form.count("%d"))
+            for sent in (0, 1, K - 2, K - 1):
+                spec = Spec(sent, "identity", "cl", [], "", "whole" if sent % 2 else 7, True)
+                wb = b"HTTP/1.1 200 OK\r\nContent-Length: " + cl.encode() + b"\r\n\r\n" + respgen.payload(K)[:sent]
+                dmg = Damage("cut-under-list-content-length", sent, MUST, True, f"content-length={cl!r}")
+                for pname, ops in patterns(spec) + [("readn-then-read", [["readn", 2], ["read"]])]:
+                    rec.case(["cl-list", cl, sent, pname])
+                    rec.mon("content_length_list")
+                    run_case(rec, spec, dmg, wb, pname, ops, rng)
+
+
+def run_zero_padded_chunks(ctx: Ctx, rec: Recorder) -> None:
+    """Chunk sizes written with leading zeros (legal: chunk-size = 1*HEXDIG; fixed-width sizes are common): a stream that
+    dies inside such a size line, after one or more of its zeros, has not reached the terminating chunk."""
+    rng = ctx.rng
+    head = b"HTTP/1.1 200 OK\r\nTransfer-Encoding: chunked\r\n\r\n"
+    for width in (2, 4, 8):
+        first = b"%0*x\r\nhello\r\n" % (width, 5)
+        second = b"%0*x\r\n0123456789\r\n" % (width, 10)
+        for cut in range(1, width):  # 1 .. width-1 zeros of the second size line have arrived
+            wb = head + first + second[:cut]
+            spec = Spec(15, "identity", "chunked", [5, 10], "", "whole", True)
+            dmg = Damage("cut-inside-zero-padded-chunk-size", len(first) + cut, MUST, True, f"width={width};zeros={cut}")
+            for pname, ops in patterns(spec):
+                rec.case(["zero-padded", width, cut, pname])
+                rec.mon("zero_padded_chunk_size")
+                run_case(rec, spec, dmg, wb, pname, ops, rng)
+
+
 def run_shard(ctx: Ctx, rec: Recorder) -> None:
     rng = ctx.rng
     idx = 0
+    if ctx.shard == 2 % ctx.nshards:
+        run_zero_padded_chunks(ctx, rec)
     if ctx.shard == 0:
         run_huge_announced(ctx, rec)
+    if ctx.shard == 1 % ctx.nshards:
+        run_cl_list(ctx, rec)
     specs = small_specs()
     stride = ctx.pick(6, 1)
     for spec in specs:
